@@ -25,6 +25,14 @@ PARSE = "flowmark.formats.flowmark_markdown:CustomFencedCode.parse"
 def _pattern_text(ctx: Ctx, fi, e: ast.AST) -> str | None:
     if isinstance(e, ast.Constant) and isinstance(e.value, str):
         return e.value
+    if isinstance(e, ast.Attribute) and isinstance(e.value, ast.Name) and fi.cls is not None and fi.params and e.value.id in (fi.params[0], fi.cls.name) \
+            and e.attr in fi.cls.class_attrs:
+        # a pattern kept as a class attribute: cls._closing_fence_re = re.compile(...)
+        try:
+            v = Folder(ctx.repo).eval(fi.cls.class_attrs[e.attr], fi.module, {}, None)
+        except Exception:  # noqa: BLE001
+            return None
+        return getattr(v, "pattern", v if isinstance(v, str) else None)
     if isinstance(e, (ast.Name, ast.Attribute)):
         r = ctx.repo.resolve_expr(e, fi.module, fi)
         if hasattr(r, "assigns"):
